@@ -94,9 +94,10 @@ def real_solver_search(rep, rng, n):
     from optyx.solution import SolverStatus
     found = 0
     tried = 0
-    methods = ["auto", "SLSQP", "trust-constr", "L-BFGS-B", "BFGS", "Nelder-Mead", "COBYLA", "TNC", "Powell", "CG", "linprog"]
+    methods = ["auto", "SLSQP", "trust-constr", "L-BFGS-B", "BFGS", "Nelder-Mead", "COBYLA", "TNC", "Powell", "CG", "linprog", "highs", "highs-ds"]
     for i in range(n):
-        kind = rng.choice(["feasible", "infeasible", "bounds", "lp_infeasible", "bound_only"])
+        kinds = ["feasible", "infeasible", "bounds", "lp_infeasible", "bound_only", "lp_zero_row", "nlp_zero_row", "lp_eq_infeasible"]
+        kind = kinds[i % len(kinds)]
         x = VectorVariable(f"s{i}", rng.randint(1, 3), lb=rng.choice([None, 0, -1]), ub=rng.choice([None, 2, 5]))
         P = Problem()
         quad = (x ** 2).sum() + rng.choice([0, 1, -2]) * x.sum()
@@ -110,6 +111,21 @@ def real_solver_search(rep, rng, n):
             P.minimize((x[0] + 5) ** 2 + quad)
         elif kind == "lp_infeasible":
             P.minimize(lin).subject_to(x.sum() >= 3).subject_to(x.sum() <= 1)
+        elif kind == "lp_zero_row":
+            # coefficients cancel: the row reads 0 >= 1; nothing but the constant decides it
+            z = np.zeros(x.size)
+            bad = rng.choice([lambda: z @ x >= 1, lambda: x[0] - x[0] >= 1, lambda: (x.sum() - x.sum()).eq(2), lambda: z @ x + 3 <= 1])()
+            for v in x:
+                v.lb, v.ub = 0.0, 4.0
+            P.minimize(lin).subject_to(x.sum() <= 3).subject_to(bad)
+        elif kind == "nlp_zero_row":
+            for v in x:
+                v.lb, v.ub = 0.0, 4.0
+            P.minimize(quad).subject_to(x[0] * 0 >= 1)
+        elif kind == "lp_eq_infeasible":
+            for v in x:
+                v.lb, v.ub = 0.0, 1.0
+            P.maximize(lin).subject_to(x.sum().eq(5))
         else:
             x[0].lb = 0.0
             P.minimize((x[0] + 5) ** 2)
@@ -123,7 +139,10 @@ def real_solver_search(rep, rng, n):
                 continue
             if s.status != SolverStatus.OPTIMAL or not s.values:
                 continue
-            viol = max([c.violation(s.values) for c in P.constraints] + [0.0])
+            viol = 0.0
+            for c in P.constraints:          # recomputed from evaluate(), not from the library's own violation()
+                val = float(c.expr.evaluate(s.values))
+                viol = max(viol, val if c.sense == "<=" else -val if c.sense == ">=" else abs(val))
             for v in P.variables:
                 val = s.values[v.name]
                 if v.lb is not None:
@@ -194,7 +213,7 @@ def run(rep: vk.Report):
         rep.violation({"kind": "correspondence", "obligation": "wrapper outcome = model post_minimize (SolveWrap.v)",
                        "case": cases.terms[i][:4000], "meta": meta, "model": model,
                        "witness": meta if concrete else None}, concrete=concrete)
-    tried, found = real_solver_search(rep, rng, 12 if rep.tier == "quick" else 400)
+    tried, found = real_solver_search(rep, rng, 24 if rep.tier == "quick" else 400)
     cov = rep.coverage
     cov["evaluations"] = len(cases.terms) + tried
     cov["distinct_nontrivial"] = cases.nontrivial
